@@ -255,6 +255,17 @@ func GenScenario(p *Program, r *Rand, exec uint64, tagName string, k int) *Scena
 			s.CancelBefore = true
 		case v == 1:
 			f := cand[r.Intn(len(cand))]
+			// (also a predicate: it cancels, then returns true - its task depends
+			// on it and must not start)
+			var preds []*Fn
+			for _, g := range fns {
+				if g.Role == "pred" {
+					preds = append(preds, g)
+				}
+			}
+			if len(preds) > 0 && exec%3 == 0 {
+				f = preds[int(exec/3)%len(preds)]
+			}
 			keep(f.ID, Outcome{Kind: OCancelOK})
 		case v == 2:
 			f := cand[r.Intn(len(cand))]
